@@ -17,7 +17,13 @@
      1053 = 1003 where the applications' own lists are clean and every allocation a node still lists belongs to an
             application that was hit earlier in the history by accounting trigger 5 (Core/Ledger.v xnode_removal_trigger:
             a cross-node in-flight real allocation orphaned on its node by application / all-allocations / ask removal):
-            the orphan outlives the application (finding C10-orphaned-inflight-real, same defect as C03 trigger 5) *)
+            the orphan outlives the application (finding C10-orphaned-inflight-real, same defect as C03 trigger 5);
+            also after trigger 9 (placeholder timeout) and trigger 2 (placeholder with in-flight swap released by the shim)
+     1054 = 1004 where every outstanding ask left behind was handed back to the scheduler (allocated -> pending, reversal
+            of an in-flight swap) while the application was Completing: DeallocateAsk does not move it back to Running
+            (finding C10-completing-with-returned-ask)
+     1055 = 1005 for a release with an empty allocation key that empties a Resuming application which stays Resuming
+            (finding C10-release-all-resuming) *)
 From Coq Require Import List ZArith NArith Bool.
 From YK Require Import Base.Res Core.Obs Core.AppLife Core.AppEvents Core.Ledger Core.Ledger2.
 Import ListNotations.
@@ -36,14 +42,20 @@ Fixpoint aget (m : list (N * N)) (k : N) : option N :=
   match m with [] => None | (k', v) :: t => if k' =? k then Some v else aget t k end.
 Definition aset (m : list (N * N)) (k v : N) : list (N * N) := (k, v) :: filter (fun p => negb (fst p =? k)) m.
 
+(* marker "a duplicate of this live id was rejected and has not expired yet" (kept in the same map under a shifted key) *)
+Definition dup_key (a : N) : N := a + 1099511627776.
 Definition stream_event (pre : ostate) (acc : list (N * N) * bool) (e : oevent) : list (N * N) * bool :=
   let '(m, ok) := acc in
   match e with
   | EAppAccepted a => (aset m a ST_New, ok)
-  | EAppRejected a => if memN a (live_ids pre) then (m, ok) else (aset m a ST_Rejected, ok)
+  | EAppRejected a => if memN a (live_ids pre) then (aset m (dup_key a) 1, ok) else (aset m a ST_Rejected, ok)
   | EAppUpdated a s =>
       let cur := match aget m a with Some c => c | None => ST_New end in
-      (aset m a s, ok && documented cur s)
+      (* a duplicate submission under a live id was rejected earlier: the rejected OBJECT (same id) expires on its own
+         (Rejected -> Expired is documented); that update is not a move of the accepted application *)
+      if (s =? ST_Expired) && negb (documented cur s) && match aget m (dup_key a) with Some _ => true | None => false end
+      then (filter (fun p => negb (fst p =? dup_key a)) m, ok)
+      else (aset m a s, ok && documented cur s)
   | _ => (m, ok)
   end.
 Definition stream_step (pre : ostate) (m : list (N * N)) (st : ostep) : list (N * N) * bool :=
@@ -118,6 +130,21 @@ Definition idle_completing (pre : ostate) (st : ostep) : bool :=
   | _ => true
   end.
 
+(* window of finding C10-release-all-resuming (kind 1055): a release with an empty allocation key empties a Resuming
+   application (soft gang style, placeholder timeout passed); RemoveAllAllocations fires CompleteApplication only, and
+   only when nothing is pending, while the removal of the last placeholder BY KEY fires RunApplication for a Resuming
+   application: the application stays Resuming with nothing left *)
+Definition window_release_all_resuming (pre : ostate) (st : ostep) : bool :=
+  match st_op st with
+  | OpRelease app key _ =>
+      (key =? 0) &&
+      match find_app pre app, find_app (st_obs st) app with
+      | Some a, Some a' => (ap_state a =? ST_Resuming) && (ap_state a' =? ST_Resuming)
+      | _, _ => false
+      end
+  | _ => false
+  end.
+
 (* --- 1006: undisturbed, a Completing application becomes Completed --- *)
 Definition idle_completes (pre : ostate) (st : ostep) : bool :=
   match st_op st with
@@ -162,6 +189,15 @@ Definition release_model_ok (pre : ostate) (st : ostep) : bool :=
              application (dropped by a placeholder timeout or released by the shim while in flight: findings
              C04-timeout-drops-inflight-ask / C04-released-ask-bound-by-swap) its resources are not observable and the
              step cannot be recomputed *)
+          (* one-sided link: the placeholder points to a key under which the shim has submitted a NEW request after the
+             linked real ask was removed (key reuse); the code follows the pointer to the old object, the observation
+             only has the key: same family, not recomputed *)
+          if match find_alloc (ap_allocs a) key with
+             | Some p => oa_ph p && negb (oa_release p =? 0) &&
+                         match find_alloc (ap_requests a) (oa_release p) with
+                         | Some r => negb (oa_allocated r && (oa_release r =? key))
+                         | None => false end
+             | None => false end then true else
           if negb (release_modelled (rs_of a) key ty) then true else
           let r := release_key (rs_of a) key ty in
           match same_object (st_obs st) a with
@@ -180,13 +216,18 @@ Definition release_model_ok (pre : ostate) (st : ostep) : bool :=
 (* #13: the shim confirms (PLACEHOLDER_REPLACED) a placeholder whose swap is in flight while the application is
    Completing and its completing timer has already been cleared: removeAllocationInternal takes the
    `IsCompleting && stateTimer == nil` branch to Completed before ReplaceAllocation adds the real allocation. *)
+(* second way into the same branch of removeAllocationInternal (`(IsCompleting && stateTimer == nil) || ... ||
+   hasZeroAllocations()`): with the completing timer still armed, hasZeroAllocations (no real usage, nothing pending:
+   placeholders are not counted) lets the confirmation of the last placeholder complete the application before
+   ReplaceAllocation adds the real allocation *)
+Definition zero_real_and_pending (a : oapp) : bool := IsZero (Some (ap_allocated a)) && IsZero (Some (ap_pending a)).
 Definition window_13 (pre : ostate) (st : ostep) : bool :=
   match st_op st with
   | OpRelease app key ty =>
       (ty =? TT_PlaceholderReplaced) &&
       match find_app pre app with
       | Some a =>
-          (ap_state a =? ST_Completing) && negb (ap_statetimer a) &&
+          (ap_state a =? ST_Completing) && (negb (ap_statetimer a) || zero_real_and_pending a) &&
           match find_alloc (ap_allocs a) key with
           | Some p => oa_ph p && negb (oa_release p =? 0) &&
                       forallb (fun x => oa_key x =? oa_release p) (completed_node_allocs (st_obs st))
@@ -203,7 +244,7 @@ Definition window_13b (pre : ostate) (st : ostep) : bool :=
       (ty =? TT_PlaceholderReplaced) &&
       match find_app pre app with
       | Some a =>
-          (ap_state a =? ST_Completing) && negb (ap_statetimer a) && became_completed pre (st_obs st) a &&
+          (ap_state a =? ST_Completing) && (negb (ap_statetimer a) || zero_real_and_pending a) && became_completed pre (st_obs st) a &&
           forallb (fun r => oa_release r =? key) (left_outstanding (st_op st) a) &&
           forallb (fun b => (ap_id b =? app) || negb (became_completed pre (st_obs st) b) ||
                             match left_outstanding (st_op st) b with [] => true | _ => false end) (s_apps pre)
@@ -225,14 +266,43 @@ Definition newly (f : ostate -> bool) (pre post : ostate) : bool := negb (f pre)
 
 (* applications hit by trigger 5 so far: the application the removing operation addresses *)
 Definition orphaned_app (pre : ostate) (st : ostep) : list N :=
-  if xnode_removal_trigger pre st || xnode_timeout_trigger pre st then
+  if xnode_removal_trigger pre st || xnode_timeout_trigger pre st ||
+     match known_trigger pre st with Some 2 => true | _ => false end then
     match st_op st with OpAppRemove id => [id] | OpRelease app _ _ => [app] | OpFirePh id => [id] | _ => [] end
   else [].
+
+(* asks handed back to the scheduler (allocated true -> false under the same key) while their application is Completing
+   after the step: DeallocateAsk (reversal of an in-flight swap by node removal or by the release of its placeholder)
+   raises pending again but, unlike AddAllocationAsk, does not move a Completing application back to Running *)
+Definition returned_asks (pre : ostate) (st : ostep) : list (N * N) :=
+  flat_map (fun a' =>
+    if ap_state a' =? ST_Completing then
+      match find_app pre (ap_id a') with
+      | Some a =>
+          flat_map (fun r' => match find_alloc (ap_requests a) (oa_key r') with
+                              | Some r => if oa_allocated r && negb (oa_allocated r') then [(ap_id a', oa_key r')] else []
+                              | None => [] end) (ap_requests a')
+      | None => []
+      end
+    else []) (s_apps (st_obs st)).
+(* the in-flight real ask whose placeholder sits on the node this very step removes: handed back inside the step *)
+Definition returned_by_this_step (op : oop) (a : oapp) (r : oalloc) : bool :=
+  match op with
+  | OpNodeRemove n =>
+      oa_allocated r && negb (oa_release r =? 0) &&
+      match find_alloc (ap_allocs a) (oa_release r) with Some ph => oa_node ph =? n | None => false end
+  | _ => false
+  end.
+Definition window_returned (ret : list (N * N)) (pre : ostate) (st : ostep) : bool :=
+  forallb (fun a => negb (became_completed pre (st_obs st) a) ||
+                    forallb (fun r => existsb (fun p => (fst p =? ap_id a) && (snd p =? oa_key r)) ret ||
+                                      returned_by_this_step (st_op st) a r)
+                            (left_outstanding (st_op st) a)) (s_apps pre).
 Definition window_orphan (orph : list N) (post : ostate) : bool :=
   forallb completed_self_clean (s_apps post ++ s_completed post) &&
   forallb (fun x => memN (oa_app x) orph) (completed_node_allocs post).
 
-Definition c10_step (idx : N) (pre : ostate) (m : list (N * N)) (orph : list N) (st : ostep) : list (N * N) * list (N * N) :=
+Definition c10_step (idx : N) (pre : ostate) (m : list (N * N)) (orph : list N) (ret : list (N * N)) (pois : bool) (st : ostep) : list (N * N) * list (N * N) :=
   let post := st_obs st in
   let '(m', sok) := stream_step pre m st in
   (m',
@@ -240,23 +310,29 @@ Definition c10_step (idx : N) (pre : ostate) (m : list (N * N)) (orph : list N) 
    flag idx 1002 (sok && updates_match_state st) ++
    (if newly completed_clean pre post then []
     else [(idx, if window_13 pre st then 1050 else if window_orphan orph post then 1053 else 1003)]) ++
-   (if completed_no_outstanding pre st then [] else [(idx, if window_13b pre st then 1052 else if window_17 pre st then 1051 else 1004)]) ++
-   flag idx 1005 (idle_completing pre st) ++
+   (if completed_no_outstanding pre st then []
+    else [(idx, if window_13b pre st then 1052 else if window_17 pre st then 1051
+                else if window_returned ret pre st then 1054 else 1004)]) ++
+   (if idle_completing pre st then [] else [(idx, if window_release_all_resuming pre st then 1055 else 1005)]) ++
    flag idx 1006 (idle_completes pre st) ++
    flag idx 1007 (newly terminated_unqueued pre post) ++
    flag idx 1008 (terminated_rejects pre st) ++
-   flag idx 1091 (release_model_ok pre st)).
+   (* the release-path model does not describe states corrupted by a recorded accounting defect: after a trigger
+      (Core/Ledger.v known_trigger, Core/Ledger2.v) the correspondence is not judged in that history *)
+   (if pois then [] else flag idx 1091 (release_model_ok pre st))).
 
-Fixpoint c10_steps (base : N) (i : N) (pre : ostate) (m : list (N * N)) (orph : list N) (l : list ostep) : list (N * N) :=
+Fixpoint c10_steps (base : N) (i : N) (pre : ostate) (m : list (N * N)) (orph : list N) (ret : list (N * N)) (pois : bool) (l : list ostep) : list (N * N) :=
   match l with
   | [] => []
   | st :: t =>
       let orph' := orphaned_app pre st ++ orph in
-      let '(m', out) := c10_step (base + i) pre m orph' st in out ++ c10_steps base (i + 1) (st_obs st) m' orph' t
+      let ret' := returned_asks pre st ++ ret in
+      let pois' := pois || match known_trigger_ext pre st with Some _ => true | None => false end in
+      let '(m', out) := c10_step (base + i) pre m orph' ret' pois' st in out ++ c10_steps base (i + 1) (st_obs st) m' orph' ret' pois' t
   end.
 
 Definition c10_history (hi : N) (h : ohistory) : list (N * N) :=
-  flag (hi * 1000) 1001 (statelogs_ok (h_init h)) ++ c10_steps (hi * 1000) 0 (h_init h) [] [] (h_steps h).
+  flag (hi * 1000) 1001 (statelogs_ok (h_init h)) ++ c10_steps (hi * 1000) 0 (h_init h) [] [] [] false (h_steps h).
 
 Fixpoint c10_all (hi : N) (cs : list ohistory) : list (N * N) :=
   match cs with [] => [] | h :: t => c10_history hi h ++ c10_all (hi + 1) t end.
